@@ -65,6 +65,21 @@ def new_result():
     }
 
 
+def sstr(x, n=200):
+    """str() that never raises (a broken tree can produce error objects whose rendering fails)."""
+    try:
+        return str(x)[:n]
+    except Exception as e:  # noqa
+        return f"<str() raised {type(e).__name__}: {e}>"[:n]
+
+
+def srepr(x, n=200):
+    try:
+        return repr(x)[:n]
+    except Exception as e:  # noqa
+        return f"<repr() raised {type(e).__name__}: {e}>"[:n]
+
+
 def sig_key(sig):
     return json.dumps(sig, sort_keys=True, default=str)
 
